@@ -145,6 +145,93 @@ theorem C04_transit_reads_nothing (T : Tables) (kd : Kind) (req dest bound : Nat
       · subst h; rfl
       · exact sealed_invisible rfl _ _ _ f h
 
+
+/-! ### explicit coverage: tunnel kind × direction × fault/close phase -/
+
+inductive Direction where
+  | up      -- ingress -> exit
+  | down    -- exit -> ingress
+  deriving Repr, DecidableEq
+
+/-- What happens to a sender's chunk sequence on the way to the link. -/
+inductive PhaseTag where
+  | steady            -- every chunk is handed to the link once
+  | closeMidWrite     -- the tunnel is torn down in the middle of a multi-chunk write: a prefix goes out
+  | writeFaultRetry   -- handing chunk k to the link fails once and is repeated (re-sealed, next counter)
+  deriving Repr, DecidableEq
+
+/-- The chunks an endpoint actually seals and hands to the link (`k` = where the close / fault hits). -/
+def emitted : PhaseTag → Nat → List Nat → List Nat
+  | .steady, _, cs => cs
+  | .closeMidWrite, k, cs => cs.take k
+  | .writeFaultRetry, k, cs => cs.take (k + 1) ++ cs.drop k
+
+/-- The cases the symbolic model covers (the engine's mesh / handler ops exercise the same grid:
+    `mesh <kind>`, `mesh tcpclose`, `hs new <kind> <failk>`). -/
+def coverage : List (Kind × Direction × PhaseTag) :=
+  Kind.all.flatMap fun kd => [Direction.up, .down].flatMap fun d =>
+    [PhaseTag.steady, .closeMidWrite, .writeFaultRetry].map fun p => (kd, d, p)
+
+/-- The list is the full grid: 6 kinds × 2 directions × 3 phases, nothing left out. -/
+theorem C04_coverage_complete :
+    coverage.length = 36 ∧ ∀ (kd : Kind) (d : Direction) (p : PhaseTag), (kd, d, p) ∈ coverage := by
+  refine ⟨by decide, ?_⟩
+  intro kd d p
+  cases kd <;> cases d <;> cases p <;> decide
+
+/-- One general lemma: whatever sub-sequence with repetitions of its chunks an honest end seals (any
+    phase, any cut point `k`), every data frame it emits is sealed under the session key with its
+    direction prefix. -/
+theorem sealed_any_phase (req pfx : Nat) (p : PhaseTag) (k : Nat) (cs : List Nat) :
+    ∀ f ∈ dataFrames (.sealWith (sessionKey req)) pfx 0 (emitted p k cs),
+      ∃ c n, f = ⟨.data, [.sealed (sessionKey req) pfx n (.atom c)]⟩ ∧ c ∈ cs := by
+  have hsub : ∀ c ∈ emitted p k cs, c ∈ cs := by
+    intro c hc
+    cases p with
+    | steady => exact hc
+    | closeMidWrite => exact List.mem_of_mem_take hc
+    | writeFaultRetry =>
+      rcases List.mem_append.mp hc with h | h
+      · exact List.mem_of_mem_take h
+      · exact List.mem_of_mem_drop h
+  have gen : ∀ (l : List Nat) (ctr : Nat), (∀ c ∈ l, c ∈ cs) →
+      ∀ f ∈ dataFrames (.sealWith (sessionKey req)) pfx ctr l,
+        ∃ c n, f = ⟨.data, [.sealed (sessionKey req) pfx n (.atom c)]⟩ ∧ c ∈ cs := by
+    intro l
+    induction l with
+    | nil => intro ctr _ f hf; cases hf
+    | cons c l ih =>
+      intro ctr hl f hf
+      simp only [dataFrames] at hf
+      rcases List.mem_cons.mp hf with h | h
+      · exact ⟨c, ctr, h, hl c List.mem_cons_self⟩
+      · exact ih (ctr + 1) (fun x hx => hl x (List.mem_cons_of_mem _ hx)) f h
+  exact gen _ 0 hsub
+
+/-- `C04_payload_sealed` for EACH covered case: for every (kind, direction, phase) of `coverage`, every
+    zero-key table, cut point and payload, every data frame crossing a relaying transit carries a chunk
+    of the application payload sealed under the tunnel's session key. -/
+theorem C04_payload_sealed_each :
+    ∀ c ∈ coverage, ∀ (T : Tables) (k req dest bound : Nat) (up down : List Nat),
+      let (kd, d, p) := c
+      let up' := if d = .up then emitted p k up else up
+      let down' := if d = .down then emitted p k down else down
+      ∀ f ∈ wireWith T kd passive req dest bound up' down', f.typ = .data →
+        ∃ ch pfx n, f = ⟨.data, [.sealed (sessionKey req) pfx n (.atom ch)]⟩ := by
+  intro c _ T k req dest bound up down
+  obtain ⟨kd, d, p⟩ := c
+  intro f hf hd
+  exact C04_payload_sealed T kd req dest bound _ _ f hf hd
+
+/-- …and nothing the sender did not hand in appears: a sealed chunk is one of the sender's chunks. -/
+example : ∀ f ∈ dataFrames (.sealWith (sessionKey 1)) 0 0 (emitted .writeFaultRetry 1 [7, 8, 9]),
+    ∃ c n, f = ⟨.data, [.sealed (sessionKey 1) 0 n (.atom c)]⟩ ∧ c ∈ [7, 8, 9] :=
+  sealed_any_phase 1 0 .writeFaultRetry 1 [7, 8, 9]
+
+/-- The phases are not vacuous: a retry really repeats a chunk, a close really cuts. -/
+example : emitted .writeFaultRetry 1 [7, 8, 9] = [7, 8, 8, 9] ∧ emitted .closeMidWrite 2 [7, 8, 9] = [7, 8] ∧
+    (wireWith pinnedT .forward passive 1 2 3 (emitted .closeMidWrite 1 [7, 8]) []).length = 3 := by decide
+
 /-! ### the active variant -/
 
 /-- Statement against a transit that may REWRITE the key fields (forward, zero, or substitute its
